@@ -3627,18 +3627,30 @@ impl ContinuityStore {
         workspace: &str,
     ) -> Result<Option<String>, io::Error> {
         let events = self.event_log.replay_validated()?;
-        let mut best: Option<(u64, String)> = None;
+        // Branch and handoff children are never made the workspace default: a thread that carries
+        // a lineage record is not a candidate.
+        let mut derived: std::collections::HashSet<String> = std::collections::HashSet::new();
+        let mut created: Vec<(u64, String)> = Vec::new();
         for event in events {
-            let EventKind::ContinuityCreated { workspace: w, .. } = event.kind else {
-                continue;
-            };
-            if w != workspace {
+            match event.kind {
+                EventKind::ContinuityBranched { .. }
+                | EventKind::ContinuityHandoffCreated { .. } => {
+                    derived.insert(event.session_id);
+                }
+                EventKind::ContinuityCreated { workspace: w, .. } if w == workspace => {
+                    created.push((event.timestamp_ms, event.session_id));
+                }
+                _ => {}
+            }
+        }
+        let mut best: Option<(u64, String)> = None;
+        for (timestamp_ms, id) in created {
+            if derived.contains(&id) {
                 continue;
             }
-            let id = event.session_id;
             match best {
-                Some((ts, _)) if ts >= event.timestamp_ms => {}
-                _ => best = Some((event.timestamp_ms, id)),
+                Some((ts, _)) if ts >= timestamp_ms => {}
+                _ => best = Some((timestamp_ms, id)),
             }
         }
         Ok(best.map(|(_, id)| id))
